@@ -40,7 +40,7 @@ RULE = ("call histories of 2-6 calls (thorough: 2-8, plus every history of lengt
 ASSUMPTIONS = [
     "equality of contents is equality of canonical JSON (sorted keys, floats by shortest round-trip repr, i.e. exact doubles) "
     "of model_dump(); graph entries are compared as an ordered list of (key, graph set)",
-    "a 'fresh process' is a new /venv/bin/python interpreter with PYTHONHASHSEED=0 and the repository first on sys.path",
+    "a 'fresh process' is a new /venv/bin/python interpreter with its own PYTHONHASHSEED (0..6, by job number) and the repository first on sys.path",
     "module state = every module named OpenPinch or OpenPinch.* in sys.modules: globals (identity of functions/classes/modules/"
     "foreign objects, deep value of dict/list/set/tuple/scalars/enum members/instances of OpenPinch classes), class attributes, "
     "and per function/method/property/static/class method: __defaults__, __kwdefaults__, closure cells, __dict__, __wrapped__; "
@@ -490,6 +490,9 @@ PB = dict(streams=[_s("P", "H1", 180.0, 60.0, 240.0, 10.0), _s("Q", "C1", 30.0, 
           utilities=[])
 
 
+# five nested labels: the order in which their zones are created (and records listed) must not depend on the interpreter's hash seed
+PD = dict(streams=[_s("Area/U1", "H1", 200.0, 100.0, 100.0), _s("Area/U2", "C1", 50.0, 150.0, 150.0), _s("Wing/K", "C2", 20.0, 80.0, 30.0),
+                   _s("Wing/L", "H2", 160.0, 70.0, 90.0), _s("Yard/Q", "C3", 40.0, 110.0, 70.0), _s("Bay/R", "H3", 140.0, 60.0, 40.0)], utilities=[])
 PC = dict(PB, options={"DECIMAL_PLACES": 4})       # an option the graph code reads: must not outlive its own call
 
 
@@ -498,6 +501,8 @@ def corpus():
     return [
         ("options of an earlier call must not outlive it [B(DECIMAL_PLACES=4); A]",
          dict(problems=[PC, PA], names=N[:2], objects=[], calls=[dict(op="dict", pn=1, p=0), dict(op="dict", pn=1, p=1)])),
+        ("hash-seed independence [D; D; model D] nested labels", dict(problems=[PD], names=N[:2], objects=[dict(problem=0)],
+                                                                       calls=[dict(op="dict", pn=1, p=0), dict(op="dict", pn=1, p=0), dict(op="model", pn=1, obj=0)])),
         ("D5 [A; B] dicts", dict(problems=[PA, PB], names=N[:2], objects=[], calls=[dict(op="dict", pn=1, p=0), dict(op="dict", pn=1, p=1)])),
         ("D6 [m; m] same model object", dict(problems=[PA], names=N[:2], objects=[dict(problem=0)],
                                              calls=[dict(op="model", pn=1, obj=0), dict(op="model", pn=1, obj=0)])),
@@ -556,8 +561,10 @@ class Runner:
 
     @staticmethod
     def _exec(d):
+        # every fresh interpreter gets its own string-hash seed (0..6): results must not depend on set / dict-of-str iteration order
+        env = dict(lib.impl_env(), PYTHONHASHSEED=str(int(d.name[1:]) % 7))
         rc, out, dt = lib.sh([lib.PY, "-W", "ignore", str(Path(__file__).resolve()), "--worker", str(d / "job.json")], 600,
-                             cwd=str(d), env=lib.impl_env())
+                             cwd=str(d), env=env)
         pos = out.rfind(MARK)
         if pos < 0:
             raise RuntimeError(f"C11 worker in {d} produced no observations (rc={rc}):\n{out[-1500:]}")
